@@ -8,7 +8,7 @@
 From Coq Require Import List NArith ZArith Bool Sorted.
 Import ListNotations.
 Require Import Verif.Lib.Wire Verif.Lib.C04Sort Verif.Gen.Facts_C04 Verif.Model.C04 Verif.Model.C04_entry Verif.Model.C04_err Verif.Gen.Exec_C04.
-Require Import Verif.Proofs.C04 Verif.Proofs.C04_flat Verif.Proofs.C04_decide Verif.Proofs.C04_safe Verif.Proofs.C04_groups Verif.Proofs.C04_spec Verif.Proofs.C04_mono Verif.Proofs.C04_one Verif.Proofs.C04_defer Verif.Proofs.C04_step Verif.Proofs.C04_all Verif.Proofs.C04_order Verif.Proofs.C04_gen Verif.Proofs.C04_late Verif.Proofs.C04_entry Verif.Proofs.C04_pos Verif.Proofs.C04_err.
+Require Import Verif.Proofs.C04 Verif.Proofs.C04_flat Verif.Proofs.C04_decide Verif.Proofs.C04_safe Verif.Proofs.C04_groups Verif.Proofs.C04_spec Verif.Proofs.C04_mono Verif.Proofs.C04_one Verif.Proofs.C04_defer Verif.Proofs.C04_step Verif.Proofs.C04_all Verif.Proofs.C04_order Verif.Proofs.C04_gen Verif.Proofs.C04_late Verif.Proofs.C04_entry Verif.Proofs.C04_pos Verif.Proofs.C04_err Verif.Proofs.C04_text.
 
 (* ---- the control flow of ActionState.execute_actions and of ActionConfiguratorMixin.action is REGENERATED from the
    source on every run (harness/c04/translate.py -> Gen/Exec_C04.v); it equals the hand-written model *)
@@ -119,6 +119,18 @@ Theorem C04_strict_prefix_spec : forall a b,
   strict_prefix a b = true <-> exists r, r <> [] /\ b = a ++ r.
 Proof. exact strict_prefix_spec. Qed.
 Print Assumptions C04_strict_prefix_spec.
+
+(* the override test compares chains ELEMENT BY ELEMENT: sibling includes conflict whatever their names are (api /
+   api_v2: the text of one name being the beginning of the other's means nothing), and a one-element chain neither
+   overrides nor is overridden by a longer chain that does not start with that very element *)
+Theorem C04_sibling_chains_conflict : forall a b : text, conflicting [a] [b] = true.
+Proof. exact sibling_chains_conflict. Qed.
+Print Assumptions C04_sibling_chains_conflict.
+
+Theorem C04_unrelated_depths_conflict : forall (a b : text) (r : path),
+  text_eqb a b = false -> conflicting [a] (b :: r) = true /\ conflicting (b :: r) [a] = true.
+Proof. exact unrelated_depths_conflict. Qed.
+Print Assumptions C04_unrelated_depths_conflict.
 
 (* Configurator.include: the including configurator's chain is a strict prefix of the included one's *)
 Theorem C04_include_strict_prefix : forall parent spec,
